@@ -317,6 +317,13 @@ impl Im2Col<'_, i8> {
             for start_row in rows.clone().step_by(K_TILE) {
                 for i in 0..K_TILE {
                     let k = start_row + i;
+
+                    // Rows past the end of the range pad the K dimension to a
+                    // multiple of `K_TILE`. These must be packed as zeros so
+                    // they don't contribute to the column sums. Their offsets
+                    // can't be relied on for this, as they may be valid when
+                    // combined with the negative offsets of padded columns.
+                    let is_k_padding = k >= rows.end;
                     let row_x_offset = ops.splat(unsafe { *row_x_offsets.get_unchecked(k) });
                     let row_y_offset = ops.splat(unsafe { *row_y_offsets.get_unchecked(k) });
                     let row_chan_offset = ops.splat(unsafe { *row_chan_offsets.get_unchecked(k) });
@@ -346,13 +353,28 @@ impl Im2Col<'_, i8> {
                             let src_elem =
                                 unsafe { *img_data.get_unchecked(offsets_array[idx] as usize) };
 
+                            // Elements in the image's padding region represent
+                            // a real value of zero, ie. the quantized value is
+                            // the zero point.
                             if CAST_B_U8 {
                                 let src_elem = shift_cast_i8_u8(src_elem);
-                                let elem = if pad_mask_array[idx] { src_elem } else { 0 };
+                                let elem = if is_k_padding {
+                                    0
+                                } else if pad_mask_array[idx] {
+                                    src_elem
+                                } else {
+                                    shift_cast_i8_u8(zero_point)
+                                };
                                 col_sums[c_block][idx] += elem as i32;
                                 out_elem.write(elem as i8);
                             } else {
-                                let elem = if pad_mask_array[idx] { src_elem } else { 0 };
+                                let elem = if is_k_padding {
+                                    0
+                                } else if pad_mask_array[idx] {
+                                    src_elem
+                                } else {
+                                    zero_point
+                                };
                                 col_sums[c_block][idx] += elem as i32;
                                 out_elem.write(elem);
                             }
